@@ -90,13 +90,13 @@ func corpus() []*caseProg {
 	cs = append(cs, mk("int-overflow", bigGas, asm(opcode.PUSHINT256, rep(opcode.Opcode(0xff), 31), byte(0x7f), opcode.INC)))
 	cs = append(cs, mk("int-min", bigGas, asm(opcode.PUSHINT256, rep(opcode.Opcode(0x00), 31), byte(0x80), opcode.DEC)))
 	cs = append(cs, mk("int-min-negate", bigGas, asm(opcode.PUSHINT256, rep(opcode.Opcode(0x00), 31), byte(0x80), opcode.NEGATE)))
-	cs = append(cs, mk("shl-256", bigGas, asm(opcode.PUSH1, opcode.PUSHINT16, 0xff, 0x00, opcode.SHL, opcode.PUSH1, opcode.SHL)))
+	cs = append(cs, mk("shl-256", bigGas, asm(opcode.PUSH1, opcode.PUSHINT16, 0xfe, 0x00, opcode.SHL, opcode.PUSH1, opcode.SHL)))
 	// item size limit
 	cs = append(cs, mk("cat-too-big", bigGas, asm(opcode.PUSHINT32, le32(131070), opcode.NEWBUFFER, opcode.PUSH1, opcode.NEWBUFFER, opcode.CAT)))
 	cs = append(cs, mk("newbuffer-max+1", bigGas, asm(opcode.PUSHINT32, le32(131071), opcode.NEWBUFFER)))
 	// gas: stops exactly at the limit
-	cs = append(cs, &caseProg{scripts: [][]byte{rep(opcode.PUSH1, 100)}, gasLimit: 1, base: 200, kind: "corpus:gas-exact"})
-	cs = append(cs, &caseProg{scripts: [][]byte{rep(opcode.PUSH1, 100)}, gasLimit: 1, base: 201, kind: "corpus:gas-over"})
+	cs = append(cs, &caseProg{scripts: [][]byte{rep(opcode.PUSH1, 100)}, gasLimit: 1, base: 100, kind: "corpus:gas-exact"})
+	cs = append(cs, &caseProg{scripts: [][]byte{rep(opcode.PUSH1, 100)}, gasLimit: 1, base: 101, kind: "corpus:gas-over"})
 	cs = append(cs, &caseProg{scripts: [][]byte{asm(opcode.JMP, 0)}, gasLimit: 10, base: 30, kind: "corpus:gas-loop"})
 	cs = append(cs, &caseProg{scripts: [][]byte{asm(sys(sysBurn, 20, 0, 0), opcode.RET)}, gasLimit: 19999, base: 30, kind: "corpus:gas-syscall"})
 	// struct cloning on APPEND/SETITEM, VALUES
@@ -122,6 +122,30 @@ func corpus() []*caseProg {
 	cs = append(cs, mk("dynamic-0", bigGas, asm(sys(sysLoad, 1, 2, 0), opcode.RET), asm(opcode.NOP)))
 	cs = append(cs, mk("dynamic-2", bigGas, asm(opcode.PUSH1, sys(sysLoad, 1, 2, 0), opcode.RET), asm(opcode.PUSH1, opcode.PUSH2)))
 	cs = append(cs, mk("retcount-mismatch", bigGas, asm(sys(sysLoad, 1, 0, 0), opcode.RET), asm(opcode.PUSH1, opcode.PUSH2)))
+	// a map that contains itself through an array; the entry is removed while the map's only
+	// other reference is the operand REMOVE has just popped
+	cs = append(cs, mk("map-remove-cyclic", bigGas, asm(
+		opcode.INITSLOT, 2, 0, opcode.NEWMAP, opcode.STLOC0, opcode.NEWARRAY0, opcode.STLOC1,
+		opcode.LDLOC1, opcode.LDLOC0, opcode.APPEND,
+		opcode.LDLOC0, opcode.PUSH1, opcode.LDLOC1, opcode.SETITEM,
+		opcode.PUSHNULL, opcode.STLOC1, opcode.LDLOC0, opcode.PUSHNULL, opcode.STLOC0,
+		opcode.PUSH1, opcode.REMOVE, opcode.PUSH5, opcode.RET)))
+	// what the limits prescribe for the boundary cases
+	want := map[string][2]any{
+		"corpus:try-16": {"HALT", 17}, "corpus:try-17": {"FAULT", 17},
+		"corpus:call-depth": {"FAULT", 1024}, "corpus:load-depth": {"FAULT", 1024}, "corpus:load-depth-own": {"FAULT", 2 * 1024},
+		"corpus:push-2048": {"HALT", 2049}, "corpus:push-2049": {"FAULT", 2049},
+		"corpus:newarray-2047": {"HALT", 3}, "corpus:newarray-2048": {"FAULT", 2},
+		"corpus:int-overflow": {"FAULT", 2}, "corpus:int-min": {"FAULT", 2}, "corpus:int-min-negate": {"FAULT", 2},
+		"corpus:shl-256": {"FAULT", 5}, "corpus:cat-too-big": {"FAULT", 5}, "corpus:newbuffer-max+1": {"FAULT", 2},
+		"corpus:gas-exact": {"HALT", 101}, "corpus:gas-over": {"FAULT", 100}, "corpus:gas-syscall": {"FAULT", 1},
+		"corpus:dynamic-2": {"FAULT", 5}, "corpus:retcount-mismatch": {"FAULT", 4}, "corpus:dynamic-0": {"HALT", 4},
+	}
+	for _, c := range cs {
+		if w, ok := want[c.kind]; ok {
+			c.expect, c.maxSteps = w[0].(string), w[1].(int)
+		}
+	}
 	return cs
 }
 
